@@ -126,8 +126,11 @@ Definition make_int_v (o : op) (args : list pyval) : res pyval :=
   | None => if is_int_op o then Err NotImplementedErr else Err ValueError
   end.
 
-Definition ni_to_typeerror (r : res pyval) : res pyval :=
-  match r with Err NotImplementedErr => Err TypeError | _ => r end.
+(* "if r is NotImplemented: <alt>" *)
+Definition if_ni (r alt : res pyval) : res pyval :=
+  match r with Err NotImplementedErr => alt | _ => r end.
+
+Definition ni_to_typeerror (r : res pyval) : res pyval := if_ni r (Err TypeError).
 
 (* ------------------------------------------ constraints.py::cond / then *)
 
@@ -405,12 +408,9 @@ Definition rname (o : pyop) : mname :=
    this lattice overrides a reflected method of its base, so the
    "subclass first" rule never fires for the arithmetic operators *)
 Definition py_arith (o : pyop) (a b : pyval) : res pyval :=
-  match try_method a (lname o) [b] with
-  | Err NotImplementedErr =>
-      if pycls_eqb (class_of a) (class_of b) then Err TypeError
-      else ni_to_typeerror (try_method b (rname o) [a])
-  | r => r
-  end.
+  if_ni (try_method a (lname o) [b])
+        (if pycls_eqb (class_of a) (class_of b) then Err TypeError
+         else ni_to_typeerror (try_method b (rname o) [a])).
 
 (* Objects/object.c do_richcompare; [same] is "a is b" *)
 Definition py_compare (o : pyop) (same : bool) (a b : pyval) : res pyval :=
@@ -422,16 +422,9 @@ Definition py_compare (o : pyop) (same : bool) (a b : pyval) : res pyval :=
     | ONe => Ok (VE (PyBool (negb same)))
     | _ => Err TypeError
     end in
-  if proper_subclass (class_of b) (class_of a) then
-    match rev with
-    | Err NotImplementedErr => match fwd with Err NotImplementedErr => fallback | r => r end
-    | r => r
-    end
-  else
-    match fwd with
-    | Err NotImplementedErr => match rev with Err NotImplementedErr => fallback | r => r end
-    | r => r
-    end.
+  if proper_subclass (class_of b) (class_of a)
+  then if_ni rev (if_ni fwd fallback)
+  else if_ni fwd (if_ni rev fallback).
 
 (* a op b for operands of which at least one is a cspuz object *)
 Definition py_binop (o : pyop) (same : bool) (a b : pyval) : res pyval :=
